@@ -136,7 +136,7 @@ func runC06(tier string) int {
 	r := harness.NewRun("C06", "exploration", tier, budget(tier, 50*time.Second, 12*time.Minute))
 	maxSlots, rotations := 3, []int{0, 1, 3, 5, 7, 9, 11}
 	if tier == "thorough" {
-		maxSlots, rotations = 4, []int{0, 1, 2, 3, 4, 5, 6, 7, 8, 9, 10, 11, 12}
+		maxSlots, rotations = 4, []int{0, 3, 5, 8, 11}
 	}
 	completed := c06Enumerate(r, maxSlots, rotations, func(data []datum, dist []int, rot, clash int) { c06Eval(r, data, dist, rot, clash) })
 	if completed < maxSlots {
